@@ -27,7 +27,7 @@ func checkC13(c *Ctx) {
 	c.Expect("C13-R1", 8)
 	c.Expect("C13-R2", 5)
 	c.Expect("C13-R3", 1)
-	c.Expect("C13-R4", 2)
+	c.Expect("C13-R4", 3)
 	p := c.P("linux")
 	if p == nil || p.Tcell == nil {
 		c.Undecided("C13-R1", "package tcell", "-", "not loaded")
@@ -85,6 +85,46 @@ func checkC13(c *Ctx) {
 	if lr == nil {
 		c.Undecided("C13-R4", "LockRegion", "-", "not found")
 		return
+	}
+	// the region walked is exactly [x, x+width) x [y, y+height): loop variables start at the
+	// arguments and stop below argument+extent (the cell functions ignore what is off-screen)
+	{
+		okRange, nLoops := true, 0
+		detail := ""
+		for _, b := range lr.Blocks {
+			for _, in := range b.Instrs {
+				phi, ok := in.(*ssa.Phi)
+				if !ok || len(phi.Edges) != 2 {
+					continue
+				}
+				var init ssa.Value
+				for i, e := range phi.Edges {
+					if !b.Dominates(b.Preds[i]) {
+						init = e
+					}
+				}
+				// its bound
+				for _, r := range referrers(phi) {
+					bo, ok := r.(*ssa.BinOp)
+					if !ok || bo.Op != token.LSS || bo.X != ssa.Value(phi) {
+						continue
+					}
+					nLoops++
+					add, isAdd := bo.Y.(*ssa.BinOp)
+					prm, isPrm := derefCell(init).(*ssa.Parameter)
+					if !isPrm || !isAdd || add.Op != token.ADD || derefCell(add.X) != ssa.Value(prm) {
+						okRange = false
+						detail += fmt.Sprintf("loop from %s below %s; ", valName(init), valName(bo.Y))
+						continue
+					}
+					if _, isP2 := derefCell(add.Y).(*ssa.Parameter); !isP2 {
+						okRange = false
+						detail += "extent is not the argument; "
+					}
+				}
+			}
+		}
+		c.Check(okRange && nLoops == 2, "C13-R4", "LockRegion:range", p.pos(lr.Pos()), fmt.Sprintf("%d loops, each from the origin argument to origin+extent %s", nLoops, detail))
 	}
 	for _, want := range []struct {
 		callee string
